@@ -141,6 +141,20 @@ def run(tier):
             add({'e': 'run', 'g': d, 'batch': [i + 1 for i in order], 'procs': procs, 'maxchunk': mc, 'raised': raised, 'results': results},
                 {'doc': d, 'kind': kind, 'order': order, 'processes': procs, 'max_chunk_size': mc, 'source': src, 'multiprocess': len(order) > mc,
                  'raised': results[0] if raised else ''})
+        # the single-sentence calling form (a bare token list and a bare ScoringResult) is the same function
+        for i in rng.sample(range(nsent), 3):
+            raised, results = False, []
+            try:
+                sc = D['scores'][i]
+                res = h.parsing.run(D['doc'][i], type(sc)(sc.tag_scores.copy(), sc.dep_scores.copy()), list(D['cats']), list(D['roots']), D['bin'], D['un'],
+                                    processes=1, max_chunk_size=1000, **D['kwargs'])
+                results = [digest(x) for x in res]
+            except Exception as e:
+                raised, results = True, [repr(e)[:100]]
+            n_runs += 1
+            add({'e': 'run', 'g': d, 'batch': [i + 1], 'procs': 1, 'maxchunk': 1000, 'raised': raised, 'results': results},
+                {'doc': d, 'kind': kind, 'order': [i], 'processes': 1, 'max_chunk_size': 1000, 'source': 'single-sentence calling form', 'multiprocess': False,
+                 'raised': results[0] if raised else ''})
         # shape mismatches must be rejected before any parsing
         from depccg.types import ScoringResult
         bad = []
